@@ -25,6 +25,8 @@ pub struct Out {
     pub violations: BTreeMap<String, (usize, serde_json::Value)>,
     pub counters: BTreeMap<String, u64>,
     pub samples: Vec<serde_json::Value>,
+    /// C07: raw observations (no verdicts), one object per module
+    pub observations: Vec<serde_json::Value>,
 }
 
 impl Out {
@@ -882,6 +884,100 @@ fn run_c04(ctx: &Ctx, out: &mut Out) {
     }
 }
 
+/// C07: the Rust leg of the cross-backend comparison. This harness is the single source of the
+/// operation list: for every packet / struct of the module it enumerates the values and the byte
+/// strings, executes the generated Rust code on them and reports values, encodings, inputs and
+/// decode results *without judging them*; the orchestrator hands exactly these values and inputs
+/// to the Python, C++ and Java drivers and compares the four observations with each other.
+fn run_c07(ctx: &Ctx, out: &mut Out) {
+    let m = Model::new(ctx.inl);
+    let big = ctx.module.big_endian;
+    let mut types = vec![];
+    let max_inputs = if ctx.tier_thorough { 12000 } else { 1500 };
+    for t in &ctx.module.types {
+        if t.kind == "custom" {
+            continue;
+        }
+        let decl = match ctx.inl.get(t.name) {
+            Some(d) => d,
+            None => continue,
+        };
+        if !model_can_encode(ctx.inl, t.name) {
+            continue;
+        }
+        let (enc_f, dec_f, dec_prefix_f) = match (t.encode_check, t.decode_full_value, t.decode_value) {
+            (Some(a), Some(b), Some(c)) => (a, b, c),
+            _ => continue,
+        };
+        // values: the explored in-range values (the reference is only asked which are in range)
+        let vg = ValueGen { m: &m, budget: if ctx.tier_thorough { budget(true) } else { Budget { max_values: 60, pairs: true, nested_alts: 3, max_array_len: 20 } } };
+        let vals: Vec<Val> = vg.values(t.name).ok.into_iter().filter(|v| m.encode(t.name, v).is_ok()).collect();
+        let mut enc: Vec<serde_json::Value> = vec![];
+        let mut own_encodings: Vec<Vec<u8>> = vec![];
+        for v in &vals {
+            PROGRESS.fetch_add(1, Ordering::Relaxed);
+            let r = enc_f(v);
+            enc.push(match &r.outcome {
+                EncOutcome::Ok(b) => {
+                    own_encodings.push(b.clone());
+                    json!(model::hex(b))
+                }
+                EncOutcome::Err(k) => json!(format!("err:{k:?}")),
+                EncOutcome::NotConstructible(e) => json!(format!("not-constructible:{}", norm_msg(e))),
+                EncOutcome::Panic(p) => json!(format!("panic:{}", norm_msg(p))),
+            });
+        }
+        // inputs: the bounded byte-string space of the type (for a child: of its root, so that
+        // the whole tree sees the same strings) plus what this backend's own encoder produced
+        let root = ctx.inl.ancestry(t.name).last().map(|d| d.id.clone()).unwrap_or_else(|| t.name.to_string());
+        let mut seen: std::collections::HashSet<Vec<u8>> = std::collections::HashSet::new();
+        let mut inputs: Vec<Vec<u8>> = vec![];
+        for b in own_encodings {
+            if seen.insert(b.clone()) {
+                inputs.push(b);
+            }
+        }
+        for ty in std::iter::once(root.clone()).chain(std::iter::once(t.name.to_string())) {
+            for_inputs(ctx, &m, &ty, true, &mut |b: &[u8]| {
+                if inputs.len() < max_inputs && seen.insert(b.to_vec()) {
+                    inputs.push(b.to_vec());
+                }
+            });
+        }
+        let is_struct = decl.is_struct();
+        let dec: Vec<serde_json::Value> = inputs
+            .iter()
+            .map(|b| {
+                PROGRESS.fetch_add(1, Ordering::Relaxed);
+                if is_struct {
+                    match dec_prefix_f(b) {
+                        Ok((v, n)) => json!({"v": v.to_json(), "n": n}),
+                        Err(Ok(k)) => json!(format!("err:{k:?}")),
+                        Err(Err(p)) => json!(format!("panic:{}", norm_msg(&p))),
+                    }
+                } else {
+                    match dec_f(b) {
+                        Ok(v) => json!({"v": v.to_json()}),
+                        Err(Ok(k)) => json!(format!("err:{k:?}")),
+                        Err(Err(p)) => json!(format!("panic:{}", norm_msg(&p))),
+                    }
+                }
+            })
+            .collect();
+        out.add("c07-values", vals.len() as u64);
+        out.add("c07-inputs", inputs.len() as u64);
+        types.push(json!({
+            "name": t.name,
+            "kind": t.kind,
+            "values": vals,
+            "enc": enc,
+            "inputs": inputs.iter().map(|b| model::hex(b)).collect::<Vec<_>>(),
+            "dec": dec,
+        }));
+    }
+    out.observations.push(json!({"state": ctx.st.id, "big": big, "types": types}));
+}
+
 fn pdlmc_core_guard<T>(f: impl FnOnce() -> T) -> Option<T> {
     std::panic::catch_unwind(std::panic::AssertUnwindSafe(f)).ok()
 }
@@ -1317,7 +1413,7 @@ pub fn main(modules: Vec<Module>) {
             }
         }
     });
-    let mut out = Out { violations: BTreeMap::new(), counters: BTreeMap::new(), samples: vec![] };
+    let mut out = Out { violations: BTreeMap::new(), counters: BTreeMap::new(), samples: vec![], observations: vec![] };
     let by_id: BTreeMap<usize, &StateIn> = states.iter().map(|s| (s.id, s)).collect();
     let none: Vec<String> = vec![];
     for module in &modules {
@@ -1363,6 +1459,7 @@ pub fn main(modules: Vec<Module>) {
             "C04" => run_c04(&ctx, &mut out),
             "C06" => run_c06(&ctx, &mut out),
             "C15" => run_c15(&ctx, &mut out),
+            "C07" => run_c07(&ctx, &mut out),
             _ => {
                 eprintln!("unknown property {prop}");
                 std::process::exit(2);
@@ -1371,5 +1468,5 @@ pub fn main(modules: Vec<Module>) {
     }
     let viols: Vec<serde_json::Value> =
         out.violations.iter().map(|(sig, (n, d))| json!({"sig": sig, "occurrences": n, "detail": d})).collect();
-    println!("{}", json!({"violations": viols, "counters": out.counters, "samples": out.samples}));
+    println!("{}", json!({"violations": viols, "counters": out.counters, "samples": out.samples, "observations": out.observations}));
 }
